@@ -283,41 +283,59 @@ impl<'a> Iterator for Lexer<'a> {
                                 '0' => '\0',
                                 'r' => '\r',
                                 'u' => {
-                                    if iter.next() != Some('{') {
-                                        // TODO error
-                                        continue;
-                                    }
-                                    self.l += '{'.len_utf8();
-                                    let mut i = 0;
-                                    let mut valid = true;
-                                    loop {
-                                        let Some(n) = iter.next() else {
-                                            // TODO: error in this case?
-                                            return None;
-                                        };
-                                        self.l += n.len_utf8();
-                                        if n == '}' {
-                                            // TODO: error if no number was provided.
-                                            break;
-                                        }
-                                        match n.to_digit(16) {
-                                            None => {
-                                                valid = false;
+                                    // Scan `{hex digits}` on a copy of the iterator and only
+                                    // consume it if it is all there and names a character.
+                                    // Otherwise the escape is reported and the characters after
+                                    // `\u` stay in the string - which is where Lexer::build,
+                                    // which knows nothing about this escape, sees them.
+                                    let mut ahead = iter.clone();
+                                    let mut len = 0_usize;
+                                    let mut digits = 0_usize;
+                                    let mut value: Option<u32> = Some(0);
+                                    let mut closed = false;
+                                    if ahead.next() == Some('{') {
+                                        len += 1;
+                                        loop {
+                                            match ahead.next() {
+                                                Some('}') => {
+                                                    len += 1;
+                                                    closed = true;
+                                                    break;
+                                                }
+                                                Some(h) if h.is_ascii_hexdigit() => {
+                                                    len += 1;
+                                                    digits += 1;
+                                                    // More than 8 digits do not fit: not a character.
+                                                    value = value
+                                                        .and_then(|v| v.checked_mul(16))
+                                                        .and_then(|v| v.checked_add(h.to_digit(16)?));
+                                                }
+                                                _ => break,
                                             }
-                                            Some(d) => {
-                                                i = i * 16 + d;
-                                            }
                                         }
                                     }
-                                    if !valid {
-                                        // TODO: error
-                                        continue;
-                                    }
-                                    let Some(c) = char::from_u32(i) else {
-                                        // TODO: error
-                                        continue;
+                                    let c = if closed && digits > 0 {
+                                        value.and_then(char::from_u32)
+                                    } else {
+                                        None
                                     };
-                                    c
+                                    match c {
+                                        Some(c) => {
+                                            iter = ahead;
+                                            self.l += len;
+                                            c
+                                        }
+                                        None => {
+                                            self.errs.add(Error::UnknownEscapeSequence {
+                                                sequence: Str {
+                                                    value: self.s,
+                                                    start: self.l - 2,
+                                                    end: self.l,
+                                                },
+                                            });
+                                            continue;
+                                        }
+                                    }
                                 }
                                 _ => {
                                     self.errs.add(Error::UnknownEscapeSequence {
